@@ -49,3 +49,20 @@ reg("C14",
 import glob as _glob, importlib as _importlib, os as _os
 for _f in sorted(_glob.glob(_os.path.join(_os.path.dirname(_os.path.abspath(__file__)), "props_C*.py"))):
     _importlib.import_module(_os.path.basename(_f)[:-3])
+
+
+# theorem packages: driver/thm_Cxx.json = {"property_modules": [...], "theorems": [...], "proof_files": [...], "partial": [...],
+# "level_text_add": "..."} extend the configuration of property Cxx (written by the proof work, merged here)
+import json as _json
+for _f in sorted(_glob.glob(_os.path.join(_os.path.dirname(_os.path.abspath(__file__)), "thm_C*.json"))):
+    _pid = _os.path.basename(_f)[4:-5]
+    if _pid not in PROPS:
+        continue
+    _t = _json.load(open(_f))
+    _c = PROPS[_pid]
+    _c["property_modules"] = list(_c.get("property_modules", [])) + [m for m in _t.get("property_modules", []) if m not in _c.get("property_modules", [])]
+    _c["theorems"] = list(_c.get("theorems", [])) + [m for m in _t.get("theorems", []) if m not in _c.get("theorems", [])]
+    _c["proof_files"] = list(_c.get("proof_files", [])) + [m for m in _t.get("proof_files", []) if m not in _c.get("proof_files", [])]
+    _c["partial"] = list(_c.get("partial", [])) + _t.get("partial", [])
+    if _t.get("level_text_add"):
+        _c["level_text"] = _c.get("level_text", "") + " " + _t["level_text_add"]
